@@ -70,6 +70,8 @@ FIELD_CLASSES = {
 # (class, attr) specific overrides
 FIELD_CLASSES_BY_CLASS = {
     ("AuxData", "_lazy_container"): "_LazyDataContainer",
+    ("CodeBlock", "decode_mode"): ("CodeBlock.DecodeMode", "enum"),
+    ("SymAddrConst", "symbol"): "Symbol", ("SymAddrAddr", "symbol1"): "Symbol", ("SymAddrAddr", "symbol2"): "Symbol",
     ("Section", "_interval_index"): ("LazyIntervalTree", "ByteInterval"),
     ("ByteInterval", "_interval_tree"): ("LazyIntervalTree", "ByteBlock"),
     ("Section._ByteIntervalSet", "_node"): "Section",
@@ -320,6 +322,10 @@ class Schema:
             return self.pb.sub_get(eng, obj, attr, st)
         if obj.k in ("pbrep", "pbmap", "blob"):
             return SV("boundbuiltin", x=(obj, attr))
+        if obj.k == "val" and obj.cls is None and attr == "uuid":
+            # .uuid of a dynamically typed node: every Node class stores it in the plain attribute set by Node.__init__
+            r = eng.as_ref(obj, st, "receiver of .uuid")
+            return eng.read_field(st, r, None, "uuid")
         if obj.k in ("int", "bool") and attr == "to_bytes":
             return SV("boundbuiltin", x=(obj, attr))
         if attr == "bytes" and (obj.k == "uuid" or (obj.k == "val" and obj.cls in (None, "UUID"))):
